@@ -114,7 +114,11 @@ pub trait NodeMut {
             return Ok(old_child.clone());
         }
 
-        if matches!(old_child, XmlNode::DocumentType(_)) {
+        // (a document type and a merged text node cannot be put back by insert_before)
+        if matches!(
+            old_child,
+            XmlNode::DocumentType(_) | XmlNode::ExpandedText(_)
+        ) {
             self.insert_before(new_child, Some(old_child))?;
             return self.remove_child(old_child);
         }
